@@ -16,8 +16,12 @@ EXPL = ("(a) Must-pass-through (E3, MIR): every path of SymbolTable::resolve to 
         "captured before leave_scope, loaded in free_symbols order right before emit(Closure, [idx, free_symbols.len()]); "
         "the VM's Closure arm hands both operands to push_closure, which copies exactly that many stack slots in order, "
         "and GetFree/SetFree index the current closure's free vector. Captured values and shadowing semantics across "
-        "sibling blocks are not decided; the known defect 'outer table queried with the inner scope's depth' has no "
-        "structural signature and is not detected.")
+        "sibling blocks: (e) a block's bindings leave the table when the block ends (compile_block_statement calls "
+        "symtab.end_block(depth of that block) after its statements on the success path; end_block drops the Global/Local "
+        "symbols of that depth or deeper from every name's list), so what a table holds is exactly the bindings of the "
+        "open blocks; (f) an enclosing table is therefore searched without the inner function's block depth (depths are "
+        "per function scope and not comparable across tables); (g) a captured (Free) symbol is found again at any "
+        "depth of the capturing function, so one variable is captured once. Captured *values* are not decided.")
 
 C = "compiler::Compiler::"
 
@@ -75,6 +79,23 @@ def run(F, R, tier):
         # results for outer symbols: Global/Builtin returned as is, others through define_free
         R.ob("resolve-free-capture", "non-global outer symbols are turned into free symbols", "self.define_free(obj)" in txt and
              "SymbolScope::Global | SymbolScope::BuiltinFn | SymbolScope::BuiltinVar" in txt, "", F.loc(rs))
+    if rs is not None:
+        b = H.body_of(rs)
+        rec = [c for c in H.walk(b) if c.get("k") == "mcall" and c["m"] == "resolve" and "outer" in H.render(c["recv"])]
+        arg = H.render(rec[0]["args"][1]) if len(rec) == 1 and len(rec[0].get("args", [])) == 2 else None
+        R.ob("outer-lookup-depth", "the enclosing table is not filtered by the inner function's block depth", arg == "MAX",
+             "outer.resolve(name, %s)%s" % (arg, "" if arg == "MAX" else ": block depths are counted per function scope; passing this scope's depth hides block-local bindings of the "
+                                          "enclosing function from a nested function, or shows it bindings of a block that has ended"), F.loc(rs))
+        conds = [H.render(x["c"]) for x in H.walk(b) if x.get("k") == "if" and "symbol.depth" in H.render(x["c"])]
+        R.ob("free-symbol-visible", "a captured symbol is found again at any depth of the capturing function (one capture per variable)",
+             conds == ["((symbol.depth <= depth) || (symbol.scope == SymbolScope::Free))"], str(conds), F.loc(rs))
+    eb = F.fn("compiler::symtab::SymbolTable::end_block")
+    if R.anchor("SymbolTable::end_block (a block's bindings end with the block)", eb):
+        t = H.render(H.body_of(eb))
+        cl = [x for x in H.walk(H.body_of(eb)) if x.get("k") == "closure"]
+        ct = H.render(cl[0]["body"]) if cl else ""
+        ok = "self.store.values_mut()" in t and ".retain(" in t and "(symbol.depth < depth)" in ct and "SymbolScope::Global" in ct and "SymbolScope::Local" in ct
+        R.ob("block-end-invalidation", "end_block(d) keeps, in every name's list, only symbols shallower than d (captured and builtin symbols stay)", ok, ct[:200], F.loc(eb))
     df = F.fn("compiler::symtab::SymbolTable::define")
     if R.anchor("SymbolTable::define", df):
         txt = H.render(H.body_of(df))
@@ -87,6 +108,27 @@ def run(F, R, tier):
         ok = tl[:1] == ["self.scopes[self.scope_index].scope_depth += 1"] and "self.scopes[self.scope_index].scope_depth -= 1" in tl and \
             tl.index("self.scopes[self.scope_index].scope_depth -= 1") == len(tl) - 2
         R.ob("depth-pairing", "scope_depth += 1 … -= 1 bracket the block, unconditionally", ok, str(tl), F.loc(cb))
+        b = H.body_of(cb)
+        seq = []
+        lets = {}
+        for st in b.get("stmts", []):
+            e = st.get("init") if st["k"] == "let" else st.get("e")
+            t = H.render(e) if e is not None else ""
+            if st["k"] == "let" and st.get("pat", {}).get("k") == "bind":
+                lets[st["pat"]["name"]] = t
+            if t.endswith(".scope_depth += 1"):
+                seq.append("+1")
+            elif t.endswith(".scope_depth -= 1"):
+                seq.append("-1")
+            elif "ForLoopDesugar" in str(e.get("src", "")) if isinstance(e, dict) else False:
+                seq.append("statements")
+            elif "end_block" in t:
+                m = [c for c in H.walk(e) if c.get("k") == "mcall" and c["m"] == "end_block"]
+                a = H.render(m[0]["args"][0]) if m else "?"
+                a = lets.get(a, a)
+                seq.append("end_block(%s)" % a)
+        R.ob("block-end-invalidation", "a block's bindings are dropped after its statements, at the block's own depth", seq == ["+1", "statements", "end_block(self.scopes[self.scope_index].scope_depth)", "-1"],
+             str(seq), F.loc(cb))
     for fn in ("compile_function_literal", "compile_filter_statement"):
         g = F.fn(C + fn)
         if R.anchor(C + fn, g):
